@@ -5,7 +5,7 @@ import gen as G
 import cont
 
 MODEL_TARGETS = ["spec/FileSpec.vo", "model/Container.vo"]
-COQ_TARGETS = ["props/C06.vo"]
+COQ_TARGETS = ["props/C06.vo", "proofs/ConstsTie.vo"]
 THEOREMS = [("C06", ["C06_grammar", "C06_layout", "C06_long", "C06_long_is_crate"])]
 PROOF_FILES = ["proofs/ContainerProofs.v", "props/C06.v"]
 TRUSTED_BASE = [
